@@ -2146,7 +2146,7 @@ func (in *Interp) execFor(st *State, x *ast.ForStmt, label string) (*State, bool
 					in.noSites = true
 					X := in.evalInt(body, big)
 					in.noSites = save
-					if !X.HasAtom(func(a *Atom) bool { return a.Kind == "opq" && strings.HasPrefix(a.Path, "loop") }) {
+					if !X.HasAtom(func(a *Atom) bool { return a.Kind == "opq" && strings.HasPrefix(a.Path, "loop") }) && !loopGrowsBound(x.Body, big) {
 						cp.Bound = "loop condition " + in.render(nil, be)
 					}
 				}
@@ -2831,4 +2831,38 @@ func minFacts(ts ...*Term) []Fact {
 		walk(t)
 	}
 	return out
+}
+
+// loopGrowsBound: the loop bound mentions len(E) and the body assigns E (typically E = append(E, …)): the bound
+// moves with the loop — `for i := 0; i < len(list); i++ { list = append(list, more...) }` need not end.
+func loopGrowsBound(body *ast.BlockStmt, bound ast.Expr) bool {
+	var lists []string
+	ast.Inspect(bound, func(n ast.Node) bool {
+		if c, ok := n.(*ast.CallExpr); ok && len(c.Args) == 1 {
+			if id, ok := unparen(c.Fun).(*ast.Ident); ok && (id.Name == "len" || id.Name == "cap") {
+				lists = append(lists, types.ExprString(unparen(c.Args[0])))
+			}
+		}
+		return true
+	})
+	if len(lists) == 0 || body == nil {
+		return false
+	}
+	grows := false
+	ast.Inspect(body, func(n ast.Node) bool {
+		as, ok := n.(*ast.AssignStmt)
+		if !ok {
+			return true
+		}
+		for _, l := range as.Lhs {
+			ls := types.ExprString(unparen(l))
+			for _, e := range lists {
+				if ls == e || strings.HasPrefix(e, ls+".") {
+					grows = true
+				}
+			}
+		}
+		return true
+	})
+	return grows
 }
